@@ -380,7 +380,7 @@ def emission_corpus(rng, quick=True):
         sattrs = rng.sample(["keep", "no_retiming", "async_reg", "mr_ff", "ars_ff1", "ars_ff2", "no_shreg_extract"], rng.randint(3, 6))
         names = rng.sample(["loc", "dont_touch", "keep_hierarchy", "iob", "syn_ramstyle", "a_first"], rng.randint(2, 4))
         tattrs = [[nm, rng.choice(["true", "yes", "X0Y0", 1, 7])] for nm in names]
-        out.append(("attr-design/%s/%d" % (tcls, k), ATTR_DESIGN % dict(
+        out.append(("%sattr-design/%s/%d" % ("simcomb-" if k % 4 == 3 else "", tcls, k), ATTR_DESIGN % dict(
             tmod=tmod, tcls=tcls, sattrs=sattrs, tattrs=tattrs, memname=rng.choice([None, "mem", "storage"]),
             instname=rng.choice([None, "u", "buf"]), regular=(k % 4 != 3))))
     for kind in (("vivado", "trellis", "quartus") if quick else ("vivado", "ise", "trellis", "diamond", "quartus", "icestorm")):
@@ -393,7 +393,7 @@ def emission_corpus(rng, quick=True):
             n = rng.randint(2, 6)
             groups.append(names[pos:pos + n])
             pos += n
-        out.append(("comb-groups/%d" % k, GROUP_DESIGN % dict(groups=groups, regular=(k % 2 == 0))))
+        out.append(("%scomb-groups/%d" % ("" if k % 2 == 0 else "simcomb-", k), GROUP_DESIGN % dict(groups=groups, regular=(k % 2 == 0))))
     # several black boxes of DIFFERENT cells in one module: the `[CELL]` lines of the hierarchy comment are compared too
     # (fixed finding C02-hierarchy-order: they were sorted by heap address).
     cells = ["PLLX", "BUFA", "IOBUFZ", "BUFA", "DNA", "CARRY9", "AND2"]
@@ -465,6 +465,7 @@ def hierarchy_case(rng, ncells=8, trials=12):
     return last
 
 
+CANDIDATE_LABELS = ("tie/", "simcomb")           # corpus designs inside the region of the candidate finding C02-tie-order
 DUID_OFFSETS = (0, 1, 2, 3, 5, 8, 13, 64)      # dummy objects elaborated before a REBUILD of the design in the same interpreter
 
 BATCH_CHILD = r'''
